@@ -11,12 +11,12 @@ open Py Xs.Bind Proofs.C09
 mutual
 /-- the tree the calls of `pump` spell out: the map of an element is `merge_parent_namespaces` of the
 map passed for its parent and its own declarations -/
-def nativeTree (stack : List NsMap) : XTree → Tree
+def pumpedTree (stack : List NsMap) : XTree → Tree
   | .node d q a _ t kids tl =>
-    .node q a (mergeParent stack (declMap d [])) t (nativeKids (mergeParent stack (declMap d []) :: stack) kids) tl
-def nativeKids (stack : List NsMap) : List XTree → List Tree
+    .node q a (mergeParent stack (declMap d [])) t (pumpedKids (mergeParent stack (declMap d []) :: stack) kids) tl
+def pumpedKids (stack : List NsMap) : List XTree → List Tree
   | [] => []
-  | k :: ks => nativeTree stack k :: nativeKids stack ks
+  | k :: ks => pumpedTree stack k :: pumpedKids stack ks
 end
 
 def isRegister : PEv → Bool
@@ -42,7 +42,7 @@ def addKids (ks : List Tree) : List Open → List Open
 
 mutual
 theorem assemble_tree (t : XTree) (stack : List NsMap) (opens : List Open) (rest : List Tok) :
-    assembleGo opens (pump stack [] (toks t ++ rest)) = deliver (nativeTree stack t) opens (pump stack [] rest) := by
+    assembleGo opens (pump stack [] (toks t ++ rest)) = deliver (pumpedTree stack t) opens (pump stack [] rest) := by
   match t with
   | .node d q a st tx kids tl =>
     simp only [toks, List.append_assoc, List.cons_append]
@@ -52,22 +52,22 @@ theorem assemble_tree (t : XTree) (stack : List NsMap) (opens : List Open) (rest
       ⟨q, a, mergeParent stack (declMap d []), []⟩ opens (Tok.end q tx tl :: rest)
     simp only [List.nil_append] at ih ⊢
     rw [ih]
-    simp only [pump, assembleGo, nativeTree, deliver, List.append_nil, List.reverse_reverse]
+    simp only [pump, assembleGo, pumpedTree, deliver, List.append_nil, List.reverse_reverse]
     cases opens <;> rfl
 theorem assemble_kids (ks : List XTree) (stack : List NsMap) (o : Open) (opens : List Open) (rest : List Tok) :
     assembleGo (o :: opens) (pump stack [] (toksKids ks ++ rest)) =
-      assembleGo ({ o with kids := (nativeKids stack ks).reverse ++ o.kids } :: opens) (pump stack [] rest) := by
+      assembleGo ({ o with kids := (pumpedKids stack ks).reverse ++ o.kids } :: opens) (pump stack [] rest) := by
   match ks with
-  | [] => simp [toksKids, nativeKids]
+  | [] => simp [toksKids, pumpedKids]
   | k :: ks' =>
-    simp only [toksKids, nativeKids, List.append_assoc]
+    simp only [toksKids, pumpedKids, List.append_assoc]
     rw [assemble_tree k stack (o :: opens) _]
     simp only [deliver]
     rw [assemble_kids ks' stack _ opens rest]
     simp only [List.reverse_cons, List.append_assoc, List.singleton_append]
 end
 
-theorem assemble_pump (t : XTree) : assemble (pump [] [] (toks t)) = some (nativeTree [] t) := by
+theorem assemble_pump (t : XTree) : assemble (pump [] [] (toks t)) = some (pumpedTree [] t) := by
   have := assemble_tree t [] [] []
   simp only [List.append_nil] at this
   unfold assemble
@@ -107,7 +107,7 @@ theorem get_inScopeMap (frames : List (List (Str × Str))) (p : Option Str) :
 mutual
 theorem nsRel_native_spec (e : BEnv) (t : XTree) (stack : List NsMap) (frames : List (List (Str × Str)))
     (hq : ∀ p, NsMap.get (topMap stack) p = inScope frames p) :
-    nsRel e (nativeTree stack t) (specTree frames t) = true := by
+    nsRel e (pumpedTree stack t) (specTree frames t) = true := by
   match t with
   | .node d q a st tx kids tl =>
     have hm : ∀ p, NsMap.get (mergeParent stack (declMap d [])) p = NsMap.get (inScopeMap (d :: frames)) p := by
@@ -119,7 +119,7 @@ theorem nsRel_native_spec (e : BEnv) (t : XTree) (stack : List NsMap) (frames : 
       rw [get_inScopeMap] at this
       simpa [topMap] using this
     have ih := nsRelL_native_spec e kids _ (d :: frames) hq'
-    simp only [nativeTree, specTree, nsRel, decide_true, Bool.true_and, ih, Bool.and_true, valuesStable,
+    simp only [pumpedTree, specTree, nsRel, decide_true, Bool.true_and, ih, Bool.and_true, valuesStable,
       Bool.and_eq_true, List.all_eq_true]
     refine ⟨fun kv _ => strStable_of_get e _ _ hm kv.2, ?_⟩
     cases tx with
@@ -127,11 +127,11 @@ theorem nsRel_native_spec (e : BEnv) (t : XTree) (stack : List NsMap) (frames : 
     | some s => exact strStable_of_get e _ _ hm s
 theorem nsRelL_native_spec (e : BEnv) (ks : List XTree) (stack : List NsMap) (frames : List (List (Str × Str)))
     (hq : ∀ p, NsMap.get (topMap stack) p = inScope frames p) :
-    nsRelL e (nativeKids stack ks) (specKidsT frames ks) = true := by
+    nsRelL e (pumpedKids stack ks) (specKidsT frames ks) = true := by
   match ks with
   | [] => rfl
   | k :: ks' =>
-    simp only [nativeKids, specKidsT, nsRelL, nsRel_native_spec e k stack frames hq,
+    simp only [pumpedKids, specKidsT, nsRelL, nsRel_native_spec e k stack frames hq,
       nsRelL_native_spec e ks' stack frames hq, Bool.and_self]
 end
 
